@@ -16,8 +16,10 @@ pub enum Chunking {
     Whole,
     PerLine,
     PerChar,
+    /// every char through `write_char` (newlines included)
+    WriteChar,
 }
-pub const CHUNKINGS: [Chunking; 3] = [Chunking::Whole, Chunking::PerLine, Chunking::PerChar];
+pub const CHUNKINGS: [Chunking; 4] = [Chunking::Whole, Chunking::PerLine, Chunking::PerChar, Chunking::WriteChar];
 
 #[derive(Clone)]
 pub struct Txt {
@@ -44,6 +46,13 @@ impl Txt {
                 for c in s.chars() {
                     let mut b = [0u8; 4];
                     f.write_str(c.encode_utf8(&mut b))?;
+                }
+                Ok(())
+            }
+            Chunking::WriteChar => {
+                use std::fmt::Write as _;
+                for c in s.chars() {
+                    f.write_char(c)?;
                 }
                 Ok(())
             }
@@ -249,11 +258,45 @@ pub struct PpResult {
     pub evaluations: u64,
     pub distinct_nontrivial: u64,
     pub shapes: usize,
+    /// order-independent hash of every real rendering (C17 compares it across feature builds)
+    pub digest: u64,
     pub mismatches: Vec<Mismatch>,
     pub samples: Vec<serde_json::Value>,
 }
 
+/// Deep indentation family: a spine of `depth` nested only-or-first children below the root,
+/// where bit i of `mask` gives level i+1 a later sibling (so its guide is `|   `, else blank).
+pub fn spine(depth: usize, mask: u32) -> Vec<usize> {
+    let mut parent = vec![usize::MAX];
+    let mut cur = 0usize;
+    for lvl in 0..depth {
+        let me = parent.len();
+        parent.push(cur);
+        if mask >> lvl & 1 == 1 {
+            // pre-order: the later sibling must come after the whole subtree of `me`; build the
+            // spine first and append the siblings afterwards (re-sorted below)
+        }
+        cur = me;
+    }
+    // later siblings, deepest first so that pre-order numbering stays valid after sorting
+    let spine_nodes: Vec<usize> = (1..=depth).collect();
+    let mut extra: Vec<usize> = Vec::new();
+    for lvl in (0..depth).rev() {
+        if mask >> lvl & 1 == 1 {
+            extra.push(parent[spine_nodes[lvl]]);
+        }
+    }
+    for p in extra {
+        parent.push(p);
+    }
+    parent
+}
+
 pub fn run(max_n: usize, full_n: usize, k: usize) -> PpResult {
+    run_with(max_n, full_n, k, 10)
+}
+
+pub fn run_with(max_n: usize, full_n: usize, k: usize, spine_depth: usize) -> PpResult {
     let mut all_shapes = Vec::new();
     for n in 1..=max_n {
         all_shapes.extend(shapes(n));
@@ -263,11 +306,32 @@ pub fn run(max_n: usize, full_n: usize, k: usize) -> PpResult {
         .iter()
         .flat_map(|p| assignments(p.len(), full_n, k).into_iter().map(move |a| (p.clone(), a)))
         .collect();
-    let results: Vec<(Vec<Mismatch>, HashSet<u64>)> = work
+    // spines: every depth up to `spine_depth`, every pattern of later siblings, with the deepest
+    // spine node (and, separately, every node) carrying a multi-line rendering
+    let mut work = work;
+    let mut spines = 0usize;
+    for d in 1..=spine_depth {
+        for mask in 0u32..(1 << d) {
+            let p = spine(d, mask);
+            spines += 1;
+            let n = p.len();
+            let mut a = vec![0u8; n];
+            a[d] = 2; // the deepest spine node: "a\n\nb"
+            work.push((p.clone(), a));
+            work.push((p.clone(), vec![1u8; n]));
+            let mut a = vec![0u8; n];
+            a[d] = 3; // "\na"
+            a[n - 1] = 4;
+            work.push((p, a));
+        }
+    }
+    let all_shapes_len = all_shapes.len() + spines;
+    let results: Vec<(Vec<Mismatch>, HashSet<u64>, u64)> = work
         .par_chunks(256)
         .map(|chunk| {
             let mut mm = Vec::new();
             let mut distinct: HashSet<u64> = HashSet::new();
+            let mut dig = 0u64;
             for (parent, assign) in chunk {
                 let n = parent.len();
                 for &chunking in &CHUNKINGS {
@@ -278,6 +342,7 @@ pub fn run(max_n: usize, full_n: usize, k: usize) -> PpResult {
                                 let expected = reference(parent, start, assign, mode);
                                 let got = crate::ops::guarded(|| render_real(&arena, ids[start], mode));
                                 evals.fetch_add(1, Ordering::Relaxed);
+                                dig = dig.wrapping_add(crate::obs::hash64(&(parent, assign, start, mode, embedded, format!("{:?}", chunking), &got)));
                                 if children_of(parent, start).is_empty() == false {
                                     distinct.insert(crate::obs::hash64(&(mode, &expected)));
                                 }
@@ -298,14 +363,16 @@ pub fn run(max_n: usize, full_n: usize, k: usize) -> PpResult {
                     }
                 }
             }
-            (mm, distinct)
+            (mm, distinct, dig)
         })
         .collect();
     let mut mismatches = Vec::new();
     let mut distinct: HashSet<u64> = HashSet::new();
-    for (mm, d) in results {
+    let mut digest = 0u64;
+    for (mm, d, g) in results {
         mismatches.extend(mm);
         distinct.extend(d);
+        digest = digest.wrapping_add(g);
     }
     // smallest counterexample first
     mismatches.sort_by_key(|m| (m.parent.len(), m.assign.iter().filter(|r| **r != 0).count(), m.embedded, m.start));
@@ -326,7 +393,8 @@ pub fn run(max_n: usize, full_n: usize, k: usize) -> PpResult {
     PpResult {
         evaluations: evals.load(Ordering::Relaxed),
         distinct_nontrivial: distinct.len() as u64,
-        shapes: all_shapes.len(),
+        shapes: all_shapes_len,
+        digest,
         mismatches,
         samples,
     }
